@@ -1,11 +1,213 @@
 /-
   C08 — the response depends only on its request; same answer over HTTP/1.x and HTTP/2.
   Property theorems only; helper lemmas live in LtVerif/Proofs/Server.lean.
+
+  Vocabulary (Model/Reset.lean, Model/Server.lean):
+    ReqSt = ReqLive + ReqKept + ReqStale   the modelled fields of request_st, grouped by what
+                                           request_reset() / request_reset_ex() do with them;
+                                           ReqCore = ReqLive + ReqKept
+    h1Msg site e c head                    one request head on an HTTP/1.x connection `c`
+                                           (h1_recv_headers .. connection_handle_response_end_state)
+    h2Stream site e h2r swin obj fs es     one HTTP/2 stream on the pooled request object `obj`
+    Out.core                               status, headers without Connection (names lower-cased), body
+    expectedAnswer site e head             the answer as a function of (site, configuration, head) only
 -/
-import LtVerif.Model.Server
+import LtVerif.Proofs.Server
 namespace LtVerif.C08
 open LtVerif LtVerif.B LtVerif.Req
 
-theorem c08_placeholder : (1 : Nat) = 1 := rfl
+/-! ## reset -/
+
+/-- **request_reset() + request_reset_ex() restore every core field.**  Whatever state a request
+    object is in (any values in all modelled fields: after a successful, failed, bodied, ranged,
+    authenticated or aborted request), after the two reset functions every `ReqLive` and
+    `ReqKept` field equals its value in a freshly initialised object.  (The remaining fields,
+    `ReqStale`, are covered by `c08_stale_fields_unread`.) -/
+theorem c08_reset_restores (e : SrvEnv) (s : ReqSt) :
+    (requestResetEx (requestReset hdrIds e s)).toReqCore = (ReqSt.init e).toReqCore :=
+  reset_core e s
+
+/-- request_reset() alone (what happens between two keep-alive requests; request_reset_ex()
+    follows when the next head has arrived) restores every `ReqLive` field. -/
+theorem c08_reset_restores_live (e : SrvEnv) (s : ReqSt) :
+    (requestReset hdrIds e s).toReqLive = (ReqSt.init e).toReqLive :=
+  requestReset_live e s
+
+/-- request_release() (HTTP/2 stream objects going back to the pool) restores every core field. -/
+theorem c08_release_restores (e : SrvEnv) (s : ReqSt) :
+    (requestRelease hdrIds e s).toReqCore = (ReqSt.init e).toReqCore :=
+  requestRelease_core e s
+
+/-- A stream object taken from the pool differs from a brand-new one only in `ReqStale` fields,
+    and h2_init_stream() makes the core fields of both equal (they inherit the same
+    configuration state from the connection request `h2r`). -/
+theorem c08_h2_init_stream_recycled (e : SrvEnv) (h2r prev : ReqSt) (swin : Nat) :
+    (h2InitStream h2r swin (requestRelease hdrIds e prev)).toReqCore =
+      (h2InitStream h2r swin (ReqSt.init e)).toReqCore :=
+  h2InitStream_core h2r swin _ _ (requestRelease_core e prev)
+
+/-! ## HTTP/1.x: keep-alive, pipelining, recycled connection objects -/
+
+/-- the connection after the request heads `P` have been handled one after the other -/
+def connAfter (site : Site) (e : SrvEnv) (c : Conn) : List Bytes → Conn
+  | [] => c
+  | head :: rest => connAfter site e (h1Msg site e c head).1 rest
+
+theorem connInv_after (site : Site) (e : SrvEnv) (P : List Bytes) :
+    ∀ c, ConnInv e c → ConnInv e (connAfter site e c P) := by
+  induction P with
+  | nil => intro c h; exact h
+  | cons head rest ih =>
+    intro c h
+    apply ih
+    by_cases ho : c.isOpen = true
+    · exact (h1Msg_answer site e c h ho head).2
+    · have : h1Msg site e c head = (c, none) := by simp [h1Msg, ho]
+      rw [this]; exact h
+
+/-- **The response is a function of the request (HTTP/1.x).**  After any history `P` of request
+    heads on the connection — accepted or rejected, any methods, with or without announced
+    bodies — if the connection is still open, the comparable part of the answer to the head `R`
+    is `expectedAnswer site e R`, which mentions only the site, the configuration and `R`. -/
+theorem c08_history_free (site : Site) (e : SrvEnv) (P : List Bytes) (R : Bytes)
+    (hopen : (connAfter site e (Conn.fresh e) P).isOpen = true) :
+    ((h1Msg site e (connAfter site e (Conn.fresh e) P) R).2).map Out.core = expectedAnswer site e R :=
+  (h1Msg_answer site e _ (connInv_after site e P _ (ConnInv_fresh e)) hopen R).1
+
+/-- Metamorphic form: `R` after `P` on the same connection is answered like `R` alone on a fresh
+    connection. -/
+theorem c08_history_free_vs_alone (site : Site) (e : SrvEnv) (P : List Bytes) (R : Bytes)
+    (hopen : (connAfter site e (Conn.fresh e) P).isOpen = true) :
+    ((h1Msg site e (connAfter site e (Conn.fresh e) P) R).2).map Out.core =
+      ((h1Msg site e (Conn.fresh e) R).2).map Out.core := by
+  rw [c08_history_free site e P R hopen]
+  exact (h1Msg_answer site e _ (ConnInv_fresh e) rfl R).1.symm
+
+/-- Every element of a pipelined / keep-alive run is either unanswered (the connection was closed
+    before, or the head is incomplete) or the function of its own head. -/
+theorem c08_every_answer_from_own_request (site : Site) (e : SrvEnv) (msgs : List Bytes) :
+    ∀ c, ConnInv e c →
+      Forall2 (fun head o => o = none ∨ o.map Out.core = expectedAnswer site e head)
+        msgs (h1Run site e c msgs) := by
+  induction msgs with
+  | nil => intro c _; exact Forall2.nil
+  | cons head rest ih =>
+    intro c h
+    unfold h1Run
+    simp only []
+    by_cases ho : c.isOpen = true
+    · have ha := h1Msg_answer site e c h ho head
+      exact Forall2.cons (Or.inr ha.1) (ih _ ha.2)
+    · have hm : h1Msg site e c head = (c, none) := by simp [h1Msg, ho]
+      rw [hm]
+      exact Forall2.cons (Or.inl rfl) (ih _ h)
+
+/-- **Recycled connection objects.**  A connection object that went through any history, was
+    closed and is accepted again answers like a brand-new one. -/
+theorem c08_recycled_connection (site : Site) (e : SrvEnv) (P : List Bytes) (R : Bytes)
+    (hclosed : (connAfter site e (Conn.fresh e) P).requestCount = 0) :
+    ((h1Msg site e (connAfter site e (Conn.fresh e) P).reaccept R).2).map Out.core = expectedAnswer site e R := by
+  have hinv := connInv_after site e P _ (ConnInv_fresh e)
+  have hre : ConnInv e (connAfter site e (Conn.fresh e) P).reaccept := ⟨hinv.1, fun _ => hinv.2 hclosed⟩
+  exact (h1Msg_answer site e _ hre rfl R).1
+
+/-- **The fields no reset function restores are never read before they are written**: replacing
+    them by arbitrary values (`d`) in the request object of a connection between two requests does
+    not change the answer to the next request. -/
+theorem c08_stale_fields_unread (site : Site) (e : SrvEnv) (c : Conn) (hinv : ConnInv e c)
+    (hopen : c.isOpen = true) (d : ReqStale) (R : Bytes) :
+    ((h1Msg site e { c with r := { c.r with toReqStale := d } } R).2).map Out.core =
+      ((h1Msg site e c R).2).map Out.core := by
+  have h1 := (h1Msg_answer site e c hinv hopen R).1
+  have hinv' : ConnInv e { c with r := { c.r with toReqStale := d } } := hinv
+  have h2 := (h1Msg_answer site e _ hinv' hopen R).1
+  rw [h1, h2]
+
+/-! ## HTTP/2: earlier streams, concurrently open streams, recycled stream objects -/
+
+/-- **The response is a function of the request (HTTP/2 stream).**  Whatever pooled object a stream
+    gets — brand new, or released by any earlier stream of this or another connection — the
+    comparable part of its answer is `expectedAnswerH2`, which mentions only the site, the
+    configuration, the connection-level state `h2r` and the stream's own header fields; and the
+    object goes back to the pool with all core fields restored.  Streams that are open at the same
+    time hold different objects, so this also covers every interleaving of concurrent streams. -/
+theorem c08_h2_stream_history_free (site : Site) (e : SrvEnv) (h2r prev : ReqSt) (swin : Nat)
+    (fs : List (Bytes × Bytes)) (es : Bool) :
+    ((h2Stream site e h2r swin (requestRelease hdrIds e prev) fs es).2).map Out.core
+      = expectedAnswerH2 site e h2r swin fs es ∧
+    ((h2Stream site e h2r swin (ReqSt.init e) fs es).2).map Out.core
+      = expectedAnswerH2 site e h2r swin fs es :=
+  ⟨(h2Stream_answer site e h2r swin _ (requestRelease_core e prev) fs es).1,
+   (h2Stream_answer site e h2r swin _ rfl fs es).1⟩
+
+/-- a pool in which every object has its core fields restored -/
+def PoolOk (e : SrvEnv) (pool : List ReqSt) : Prop := ∀ p ∈ pool, p.toReqCore = (ReqSt.init e).toReqCore
+
+/-- Every stream of a connection (any number of earlier streams, any pool contents left behind by
+    other connections) is answered by the function of its own header fields. -/
+theorem c08_h2_every_stream_from_own_request (site : Site) (e : SrvEnv) (h2r : ReqSt) (swin : Nat)
+    (streams : List (List (Bytes × Bytes) × Bool)) :
+    ∀ pool, PoolOk e pool →
+      Forall2 (fun st o => o.map Out.core = expectedAnswerH2 site e h2r swin st.1 st.2)
+        streams (h2Run site e h2r swin pool streams) := by
+  induction streams with
+  | nil => intro pool _; exact Forall2.nil
+  | cons st rest ih =>
+    intro pool hpool
+    obtain ⟨fs, es⟩ := st
+    unfold h2Run
+    cases pool with
+    | nil =>
+      simp only []
+      have ha := h2Stream_answer site e h2r swin (ReqSt.init e) rfl fs es
+      refine Forall2.cons ha.1 (ih _ ?_)
+      intro p hp
+      simp only [List.mem_singleton] at hp
+      rw [hp]; exact ha.2
+    | cons p ps =>
+      simp only []
+      have hp0 : p.toReqCore = (ReqSt.init e).toReqCore := hpool p (by simp)
+      have ha := h2Stream_answer site e h2r swin p hp0 fs es
+      refine Forall2.cons ha.1 (ih _ ?_)
+      intro q hq
+      simp only [List.mem_cons] at hq
+      rcases hq with hq | hq
+      · rw [hq]; exact ha.2
+      · exact hpool q (by simp [hq])
+
+/-! ## non-vacuity: a concrete site, a concrete history -/
+
+def demoSite : Site :=
+  { nodes := [(ofString "/srv", .dir), (ofString "/srv/", .dir),
+              (ofString "/srv/a.txt", .file (ofString "text/plain") (ofString "hello\n") (ofString "\"e1\"")),
+              (ofString "/srv/index.html", .file (ofString "text/html") (ofString "<p>i</p>") (ofString "\"e2\""))],
+    indexNames := [ofString "index.html"], denySuffix := [ofString "~"],
+    scopes := [{ cond := .urlPrefix (ofString "/a"), extra := some [(ofString "X-A", ofString "1")] }] }
+
+def demoEnv : SrvEnv :=
+  { defaults := { parseopts := 9567, docRoot := ofString "/srv", maxKeepAliveRequests := 100 } }
+
+def reqA : Bytes := ofString "GET /a.txt HTTP/1.1\r\nHost: h\r\n\r\n"
+def reqMissing : Bytes := ofString "GET /nope HTTP/1.1\r\nHost: h\r\nCookie: c=1\r\n\r\n"
+def reqPost : Bytes := ofString "POST /a.txt HTTP/1.1\r\nHost: h\r\nContent-Length: 3\r\n\r\n"
+
+/-- the connection survives a 404 and the probe is answered 200 with the file, the configured
+    header of its own scope and nothing of the earlier request -/
+example : (connAfter demoSite demoEnv (Conn.fresh demoEnv) [reqMissing]).isOpen = true := by decide +kernel
+example : ((h1Msg demoSite demoEnv (connAfter demoSite demoEnv (Conn.fresh demoEnv) [reqMissing]) reqA).2).map Out.core
+    = some (200, [(ofString "content-type", ofString "text/plain"), (ofString "etag", ofString "\"e1\""),
+                  (ofString "content-length", ofString "6"), (ofString "x-a", ofString "1")], ofString "hello\n") := by
+  decide +kernel
+/-- a request that announces a body closes the connection; the recycled object answers as new -/
+example : (connAfter demoSite demoEnv (Conn.fresh demoEnv) [reqA, reqPost]).requestCount = 0 := by decide +kernel
+example : (expectedAnswer demoSite demoEnv reqA).map (·.1) = some 200 := by decide +kernel
+/-- a dirty object: reset really has something to restore -/
+example : (respond demoSite { ReqSt.init demoEnv with method := 0, version := 1, uriPath := some (ofString "/nope") }).toReqCore
+    ≠ (ReqSt.init demoEnv).toReqCore := by decide +kernel
+/-- HTTP/2: the same resource on a recycled stream object -/
+example : expectedAnswerH2 demoSite demoEnv (ReqSt.init demoEnv) 65535
+      [(ofString ":method", ofString "GET"), (ofString ":scheme", ofString "http"),
+       (ofString ":path", ofString "/a.txt"), (ofString ":authority", ofString "h")] true
+    = expectedAnswer demoSite demoEnv reqA := by decide +kernel
 
 end LtVerif.C08
